@@ -63,10 +63,11 @@ type State struct {
 	cells    map[*ssa.Alloc]Term
 	heap     map[string]Term
 	allocTop Term
+	held     []heldMon // declared monitors whose mutex is held on this path (monheld.go)
 }
 
 func (s *State) clone() *State {
-	n := &State{live: s.live, allocTop: s.allocTop, cells: make(map[*ssa.Alloc]Term, len(s.cells)), heap: make(map[string]Term, len(s.heap))}
+	n := &State{live: s.live, allocTop: s.allocTop, cells: make(map[*ssa.Alloc]Term, len(s.cells)), heap: make(map[string]Term, len(s.heap)), held: s.held}
 	for k, v := range s.cells {
 		n.cells[k] = v
 	}
@@ -662,7 +663,13 @@ func (x *Exec) loopModifies(li *loopInfo) (cells map[*ssa.Alloc]bool, heapAll bo
 					}
 				}
 			case *ssa.MapUpdate:
-				heapAll = true
+				// a map store changes the three components that model maps of that type
+				if mt, ok := in.Map.Type().Underlying().(*types.Map); ok {
+					has, val, ln, _, _ := x.mapComps(mt)
+					comps[has], comps[val], comps[ln] = true, true, true
+				} else {
+					heapAll = true
+				}
 			case ssa.CallInstruction:
 				cm, all := x.callModifies(in)
 				if all {
@@ -860,7 +867,7 @@ func (x *Exec) mergeStates(edges []inEdge, tag string) *State {
 		s.live = edges[0].cond
 		return s
 	}
-	res := &State{cells: map[*ssa.Alloc]Term{}, heap: map[string]Term{}}
+	res := &State{cells: map[*ssa.Alloc]Term{}, heap: map[string]Term{}, held: heldIntersect(edges)}
 	var conds []Term
 	for _, e := range edges {
 		conds = append(conds, e.cond)
